@@ -24,34 +24,47 @@ Fixpoint publish (calls : list Z) (s : sinks) : list effect * bool :=
       else publish r s
   end.
 
-(* serveSign from Init on (authorisation is C04): walk the call table *)
-Fixpoint serve (calls : list Z) (init_ok sign_ok : bool) (s : sinks) : list effect :=
+(* serveSign from Init on (authorisation is C04): walk the call table. [pc] is the order in which PublishAudit
+   tries the sinks; the code's order is the generated table publish_calls *)
+Fixpoint serve_p (pc : list Z) (calls : list Z) (init_ok sign_ok : bool) (s : sinks) : list effect :=
   match calls with
   | [] => []
   | c :: r =>
-      if c =? 0 then (if init_ok then serve r init_ok sign_ok s else [ERespond 500])
-      else if c =? 1 then (if sign_ok then ESign true :: serve r init_ok sign_ok s else [ESign false; ERespond 500])
-      else if c =? 2 then (let '(e, ok) := publish publish_calls s in if ok then e ++ serve r init_ok sign_ok s else e ++ [ERespond 500])
+      if c =? 0 then (if init_ok then serve_p pc r init_ok sign_ok s else [ERespond 500])
+      else if c =? 1 then (if sign_ok then ESign true :: serve_p pc r init_ok sign_ok s else [ESign false; ERespond 500])
+      else if c =? 2 then (let '(e, ok) := publish pc s in if ok then e ++ serve_p pc r init_ok sign_ok s else e ++ [ERespond 500])
       else [ERespond 200]
   end.
+Definition serve (calls : list Z) := serve_p publish_calls calls.
 Definition serve_sign (init_ok sign_ok : bool) (s : sinks) : list effect := serve serve_calls init_ok sign_ok s.
 
 (* standalone signCmd: returns effects and whether the command succeeds (exit status 0) *)
-Fixpoint standalone (calls : list Z) (init_ok sign_ok apply_ok : bool) (s : sinks) : list effect * bool :=
+Fixpoint standalone_p (pc : list Z) (calls : list Z) (init_ok sign_ok apply_ok : bool) (s : sinks) : list effect * bool :=
   match calls with
   | [] => ([], true)
   | c :: r =>
-      if c =? 0 then (if init_ok then standalone r init_ok sign_ok apply_ok s else ([], false))
-      else if c =? 1 then (if sign_ok then let '(e, k) := standalone r init_ok sign_ok apply_ok s in (ESign true :: e, k) else ([ESign false], false))
-      else if c =? 2 then (if apply_ok then let '(e, k) := standalone r init_ok sign_ok apply_ok s in (EApply :: e, k) else ([], false))
-      else if c =? 3 then standalone r init_ok sign_ok apply_ok s
-      else let '(e, ok) := publish publish_calls s in if ok then let '(e2, k) := standalone r init_ok sign_ok apply_ok s in (e ++ e2, k) else (e, false)
+      if c =? 0 then (if init_ok then standalone_p pc r init_ok sign_ok apply_ok s else ([], false))
+      else if c =? 1 then (if sign_ok then let '(e, k) := standalone_p pc r init_ok sign_ok apply_ok s in (ESign true :: e, k) else ([ESign false], false))
+      else if c =? 2 then (if apply_ok then let '(e, k) := standalone_p pc r init_ok sign_ok apply_ok s in (EApply :: e, k) else ([], false))
+      else if c =? 3 then standalone_p pc r init_ok sign_ok apply_ok s
+      else let '(e, ok) := publish pc s in if ok then let '(e2, k) := standalone_p pc r init_ok sign_ok apply_ok s in (e ++ e2, k) else (e, false)
   end.
+Definition standalone (calls : list Z) := standalone_p publish_calls calls.
 Definition sign_cmd (init_ok sign_ok apply_ok : bool) (s : sinks) := standalone standalone_calls init_ok sign_ok apply_ok s.
 
-Definition count_ok_amqp (t : list effect) : nat := length (filter (fun e => match e with EAmqp true => true | _ => false end) t).
-Definition count_ok_append (t : list effect) : nat := length (filter (fun e => match e with EAppend true => true | _ => false end) t).
-Definition responds_200 (t : list effect) : bool := existsb (fun e => match e with ERespond 200 => true | _ => false end) t.
+Definition is_ok_amqp (e : effect) : bool := match e with EAmqp true => true | _ => false end.
+Definition is_ok_append (e : effect) : bool := match e with EAppend true => true | _ => false end.
+Definition is_amqp (e : effect) : bool := match e with EAmqp _ => true | _ => false end.
+Definition is_append (e : effect) : bool := match e with EAppend _ => true | _ => false end.
+Definition is_200 (e : effect) : bool := match e with ERespond 200 => true | _ => false end.
+Definition is_failed_sink (e : effect) : bool := match e with EAmqp false | EAppend false => true | _ => false end.
+Definition count (p : effect -> bool) (t : list effect) : nat := length (filter p t).
+Definition count_ok_amqp (t : list effect) : nat := count is_ok_amqp t.      (* records the broker stored *)
+Definition count_ok_append (t : list effect) : nat := count is_ok_append t.  (* records in the audit file *)
+Definition attempts_amqp (t : list effect) : nat := count is_amqp t.         (* connections made to the broker *)
+Definition attempts_append (t : list effect) : nat := count is_append t.
+Definition count_200 (t : list effect) : nat := count is_200 t.
+Definition responds_200 (t : list effect) : bool := existsb is_200 t.
 (* effects strictly before the first 200 response *)
 Fixpoint before_200 (t : list effect) : list effect :=
   match t with
@@ -59,6 +72,14 @@ Fixpoint before_200 (t : list effect) : list effect :=
   | ERespond 200 :: _ => []
   | e :: r => e :: before_200 r
   end.
+
+(* ---- a server's life: a sequence of requests against one sink configuration, each with its own outcome of
+   Init / Sign and its own sink faults; the trace is the concatenation (the totals below do not depend on the order) *)
+Record req := mkReq { r_init : bool; r_sign : bool; r_amqp_ok : bool; r_file_ok : bool }.
+Definition serve_req (ac fc : bool) (r : req) : list effect :=
+  serve_sign (r_init r) (r_sign r) (mkSinks ac fc (r_amqp_ok r) (r_file_ok r)).
+Definition serve_all (ac fc : bool) (rs : list req) : list effect := flat_map (serve_req ac fc) rs.
+Definition healthy (r : req) : bool := r_amqp_ok r && r_file_ok r.
 
 (* ---- the audit file under concurrent writers: each AppendTo is one write of (record ++ "\n") with O_APPEND,
    so the file is the concatenation of whole records in the order the writes were serialised *)
